@@ -182,6 +182,21 @@ pub fn plain_test(c: &Case) -> Option<String> {
             s.push_str("    for (k, p) in &v {\n        m.insert(*k, *p);\n    }\n");
             s.push_str(&format!("    let mut q: {ty}<u32, i32> = v.into_iter().collect();\n"));
         }
+        Root::Refilled(how, v) => {
+            s.push_str(&format!("    let mut q: {ty}<u32, i32> = {ty}::new();\n    q.push(900, 5); q.push(901, 9); q.push(902, 1);\n"));
+            let pops = format!("    while q.{pop_hi}().is_some() {{}}\n");
+            s.push_str(match how {
+                0 => "    q.clear();\n",
+                1 => "    q.drain().for_each(drop);\n",
+                2 => "    { let mut d = q.drain(); d.next(); }\n",
+                3 => "    { let mut d = q.drain(); d.next(); std::mem::forget(d); }\n",
+                4 => &pops,
+                5 => "    q.retain(|_, _| false);\n",
+                _ => "    drop(q.drain());\n",
+            });
+            s.push_str(&format!("    let v: Vec<(u32, i32)> = vec!{:?};\n", v.iter().map(|x| (x.0, x.2)).collect::<Vec<_>>()));
+            s.push_str("    for (k, p) in &v {\n        q.push(*k, *p);\n        m.insert(*k, *p);\n    }\n");
+        }
         Root::WithCapacity(n) | Root::WithCapacityAndHasher(n) => s.push_str(&format!("    let mut q: {ty}<u32, i32> = {ty}::with_capacity({n});\n")),
         _ => s.push_str(&format!("    let mut q: {ty}<u32, i32> = {ty}::new();\n")),
     }
